@@ -448,12 +448,15 @@ def gen_transfer_case(rng, netascii=None, opt_style=None, script_style=None, sim
     script, sstyle = gen_script(rng, nblocks, T, R, oack and hk == "stream", cfg["wrap"], script_style, bs)
     mode = rng.choice(["netascii", "NetAscii", "NETASCII"]) if netascii else rng.choice(["octet", "OCTET", "Octet"])
     fname = rng.choice(["f", "boot/pxelinux.0", "a b", ""])
-    return {
+    case = {
         "cfg": cfg, "datagram": rrq_packet(fname, mode, options).hex(),
         "handlers": [{"accept": None, "result": res}], "script": script,
         "_meta": {"style": sstyle, "netascii": netascii, "options": options, "handler": hk, "bs": bs,
                   "len": len(content)},
     }
+    if rng.random() < 0.12:
+        case["debug_log"] = True        # the server's logger at DEBUG: the verbose branches run as well
+    return case
 
 
 # ------------------------------------------------------------------ shrinking
